@@ -275,7 +275,7 @@ impl Property for C03 {
     fn cases(&self, tier: Tier) -> usize {
         match tier {
             Tier::Quick => 60_000,
-            Tier::Thorough => 400_000,
+            Tier::Thorough => 3_000_000,
         }
     }
     fn strategy(&self, _tier: Tier) -> BoxedStrategy<TrajCase> {
